@@ -104,8 +104,16 @@ func maxStmtNodes(l []*gt.T, depth int, maxNodes, maxDepth *int) {
 func (c14) build(c *mon.Ctx, v2 bool) c14Case {
 	cs := c14Case{V2: v2, Stmts: map[string][]*gt.T{}, Srcs: map[string]string{}}
 	names := []string{"main.p"}
-	if !v2 && c.R.Intn(3) == 0 {
-		names = append(names, "s1.p")
+	if !v2 {
+		// use() chains up to depth 3: the signal must reach the innermost script
+		switch c.R.Intn(8) {
+		case 0, 1:
+			names = append(names, "s1.p")
+		case 2:
+			names = append(names, "s1.p", "s2.p")
+		case 3:
+			names = append(names, "s1.p", "s2.p", "s3.p")
+		}
 	}
 	spin := c.R.Intn(2) == 0
 	cs.Spin = spin
@@ -121,13 +129,17 @@ func (c14) build(c *mon.Ctx, v2 bool) c14Case {
 		g.Names = []string{"a", "b", "c"}
 		stmts := g.Program()
 		r := c.Sub("inject" + names[i])
-		if i == 0 && len(names) > 1 {
+		if i < len(names)-1 {
 			for k := 1 + r.Intn(2); k > 0; k-- {
 				ps := gt.StmtPositions(&stmts)
-				ps[r.Intn(len(ps))].Insert(gt.Call("use", gt.Str("s1.p")))
+				target := names[i+1]
+				if k > 1 && r.Intn(2) == 0 {
+					target = names[i+1+r.Intn(len(names)-i-1)]
+				}
+				ps[r.Intn(len(ps))].Insert(gt.Call("use", gt.Str(target)))
 			}
 		}
-		if spin && names[i] == spinIn {
+		if spin && (names[i] == spinIn || len(names) > 2 && i == len(names)-1 && r.Intn(2) == 0) {
 			ps := gt.StmtPositions(&stmts)
 			ps[r.Intn(len(ps))].Insert(c14Spins[r.Intn(len(c14Spins))]())
 		}
